@@ -8,6 +8,7 @@ import (
 
 	"verif/internal/driver"
 	"verif/internal/gen"
+	"verif/internal/model"
 )
 
 // C16: whole-collection enumerations cover every item exactly once, at every size.
@@ -46,13 +47,13 @@ func c16Cases(tier string) []c16Case {
 func init() {
 	register(&Prop{
 		ID: "C16", Level: "exploration",
-		Rule:        "enumerated cases: every collection size n in 0..130 (quick) / 0..600 (thorough) plus {1023..1026, 2047..2050, 3071..3074, 4095..4098} x key shape {fixed-width decimal, variable width, binary} x store kind {memory-only, flushed+evicted+re-opened file}. Each case checks Len() and the multiset of keys delivered by VisitItemsAscendBlockEx under the block manglers {nil, identity, reverse, rotate-by-1, rotate-by-half, two seeded permutations, RandBm} in both value modes and by VisitItemsRandom (twice): every key exactly once. Afterwards the same handle is checked again after 1, 2, 3 and 4 further inserts/deletes (Len, Random, reversed BlockEx). For n = 0 a nil or non-nil error with zero deliveries is accepted. Non-trivial = n >= 1; distinct = distinct (n, shape, store kind).",
+		Rule:        "enumerated cases: every collection size n in 0..130 (quick) / 0..600 (thorough) plus {1023..1026, 2047..2050, 3071..3074, 4095..4098} x key shape {fixed-width decimal, variable width, binary} x store kind {memory-only, flushed+evicted+re-opened file}; the comparator rotates through {bytes.Compare, reverse, length-first} with the case. For n <= 200 a complete block visit is also started from inside another block visit's visitor (both must cover every item exactly once). Each case checks Len() and the multiset of keys delivered by VisitItemsAscendBlockEx under the block manglers {nil, identity, reverse, rotate-by-1, rotate-by-half, two seeded permutations, RandBm} in both value modes and by VisitItemsRandom (twice): every key exactly once. Afterwards the same handle is checked again after 1, 2, 3 and 4 further inserts/deletes (Len, Random, reversed BlockEx). For n = 0 a nil or non-nil error with zero deliveries is accepted. Non-trivial = n >= 1; distinct = distinct (n, shape, store kind).",
 		Assumptions: []string{"single goroutine; block manglers return a permutation of their input"},
 		Exhaustive:  func(string) bool { return true },
 		NumCases:    func(tier string) int { return len(c16Cases(tier)) },
 		Run:         runC16,
 		Floor: func(tier string, st map[string]int64) string {
-			for _, k := range []string{"c16.len-checked", "c16.block-visits", "c16.random-visits", "c16.partial-last-block", "c16.over-max-blocks", "c16.empty", "c16.len-after-mutations"} {
+			for _, k := range []string{"c16.len-checked", "c16.block-visits", "c16.random-visits", "c16.partial-last-block", "c16.over-max-blocks", "c16.empty", "c16.len-after-mutations", "c16.nested-block-visits", "c16.cmp=rev", "c16.cmp=lenlex"} {
 				if st[k] == 0 {
 					return "no " + k + " observed"
 				}
@@ -79,8 +80,11 @@ func runC16(ctx *Ctx, idx int) Result {
 	r := gen.New(seed)
 	SeedGlobalRand(seed)
 	cfg := driver.Config{MemOnly: !cs.file}
-	e := driver.NewEnv(fmt.Sprintf("c16-%d", idx), cfg)
-	e.SetCollection("x", "")
+	// the comparator varies with the case: under the reverse one the empty key is NOT the minimum
+	cmp := []model.Cmp{model.CmpBytes, model.CmpRev, model.CmpLenLex}[(cs.n+cs.shape+btoi(cs.file))%3]
+	ctx.Stats["c16.cmp="+string(cmp)]++
+	e := driver.NewEnvCmps(fmt.Sprintf("c16-%d", idx), cfg, map[string]model.Cmp{"x": cmp})
+	e.SetCollection("x", cmp)
 	keys := map[string]bool{}
 	for i := 0; i < cs.n && !e.Failed(); i++ {
 		k := c16Key(cs.shape, i, r)
@@ -229,6 +233,39 @@ func runC16(ctx *Ctx, idx int) Result {
 	for i := 0; i < 2; i++ {
 		check("VisitItemsRandom", func(v gkvlite.ItemVisitorEx) error { return c.VisitItemsRandom(v) })
 		ctx.Stats["c16.random-visits"]++
+	}
+	// two block visits of the same collection that overlap in time: the visitor of the outer one
+	// runs a complete inner one at its middle item; both must cover every item exactly once
+	if cs.n >= 2 && cs.n <= 200 {
+		innerOK := true
+		check("VisitItemsAscendBlockEx/nested-outer", func(v gkvlite.ItemVisitorEx) error {
+			k := 0
+			return c.VisitItemsAscendBlockEx(false, manglers[2].f, func(i *gkvlite.Item, d uint64) bool {
+				if k == cs.n/2 {
+					inner := map[string]int{}
+					var err error
+					if cs.n%2 == 0 {
+						err = c.VisitItemsRandom(func(j *gkvlite.Item, d uint64) bool { inner[string(j.Key)]++; return true })
+					} else {
+						err = c.VisitItemsAscendBlockEx(false, manglers[3].f, func(j *gkvlite.Item, d uint64) bool { inner[string(j.Key)]++; return true })
+					}
+					if err != nil || len(inner) != len(keys) {
+						innerOK = false
+					}
+					for _, cnt := range inner {
+						if cnt != 1 {
+							innerOK = false
+						}
+					}
+				}
+				k++
+				return v(i, d)
+			})
+		})
+		if !innerOK && !e.Failed() {
+			e.Failf(sig("nested-inner-block-visit"), "a block visit started from inside another block visit's visitor did not cover every item exactly once (n=%d)", cs.n)
+		}
+		ctx.Stats["c16.nested-block-visits"]++
 	}
 	// the same collection handle again after 1, 2, 3 and 4 further mutations (version handles
 	// and nodes are recycled in between, so anything remembered about an old version is stale)
